@@ -244,12 +244,7 @@ def _split(a, c):
         return a // c, a % c
     ta, tb = {}, {}
     for x, k in a.terms:
-        if k < 0:
-            # keep a negative coefficient negative: -x is friendlier than -c*x + (c-1)*x for the solvers
-            q = -((-k) // c)
-            r = k - q * c
-        else:
-            q, r = divmod(k, c)
+        q, r = divmod(k, c)
         if q:
             ta[x] = q
         if r:
@@ -272,7 +267,12 @@ def divc(a, c):
         # the value crosses exactly one multiple of c: a case split is friendlier to the solvers than a div atom
         q = alo // c
         return ite(lt(a, c * (q + 1)), q, q + 1)
-    res = _divc(a, c)
+    if all(k < 0 for _, k in a.terms) and all(-k < c for _, k in a.terms):
+        # a = K - (positive form) with small coefficients (e.g. 6157 - exp): floor(a/c) = -ceil(-a/c); splitting the
+        # negative coefficients as -c*x + (c-1)*x would give the solvers a needlessly hard term
+        res = neg(_divc(add(neg(a), c - 1), c))
+    else:
+        res = _divc(a, c)
     return _with_hint(res, (None if alo is None else alo // c, None if ahi is None else ahi // c))
 
 
